@@ -8,6 +8,7 @@ import (
 	"encoding/json"
 	"fmt"
 	"io"
+	"net"
 	"net/http"
 	"net/http/httptest"
 	"sync"
@@ -50,9 +51,79 @@ type refServer struct {
 	push     chan string // JSON-RPC messages for the listening stream
 	streamUp chan struct{}
 	upOnce   sync.Once
+	cur      *liveStream // the listening stream in service (nil: none) — a newer GET supersedes the older one
+	ups      int         // number of listening streams that came up so far
 	done     chan struct{}
 	fail503  atomic.Bool  // answer the next tools/list with 503
 	failInit atomic.Value // "503" | "type": fail the next handshake's first request (initialize POST / legacy connect) that way
+}
+
+// liveStream is one listening stream being served.
+type liveStream struct {
+	stop chan string   // "close": end the stream gracefully; "reset": drop the connection; "superseded": a newer stream took over
+	gone chan struct{} // closed when the handler has returned
+}
+
+// alive: the server has a listening stream to push on.
+func (s *refServer) alive() bool {
+	s.mu.Lock()
+	defer s.mu.Unlock()
+	return s.cur != nil
+}
+
+func (s *refServer) upCount() int {
+	s.mu.Lock()
+	defer s.mu.Unlock()
+	return s.ups
+}
+
+func (s *refServer) isIssued() bool {
+	s.mu.Lock()
+	defer s.mu.Unlock()
+	return s.issued
+}
+
+// waitUps waits (event based) until n listening streams have come up.
+func (s *refServer) waitUps(n int, ceiling time.Duration) bool {
+	deadline := time.After(ceiling)
+	for {
+		s.mu.Lock()
+		ok, ch := s.ups >= n, s.changed
+		s.mu.Unlock()
+		if ok {
+			return true
+		}
+		select {
+		case <-ch:
+		case <-deadline:
+			return false
+		}
+	}
+}
+
+// endStream makes the server end the listening stream in service (gracefully, or by dropping the connection) and
+// waits until its handler has returned.
+func (s *refServer) endStream(reset bool) bool {
+	s.mu.Lock()
+	ls := s.cur
+	s.mu.Unlock()
+	if ls == nil {
+		return false
+	}
+	how := "close"
+	if reset {
+		how = "reset"
+	}
+	select {
+	case ls.stop <- how:
+	default:
+	}
+	select {
+	case <-ls.gone:
+		return true
+	case <-time.After(5 * time.Second):
+		return false
+	}
 }
 
 // failedFirst answers the first request of a handshake with the failure that was ordered (once).
@@ -191,6 +262,35 @@ func (s *refServer) stream(w http.ResponseWriter, r *http.Request, first string,
 		io.WriteString(w, first)
 	}
 	fl.Flush()
+	// take over from the stream in service, if any: it ends before this one is announced as up
+	ls := &liveStream{stop: make(chan string, 1), gone: make(chan struct{})}
+	s.mu.Lock()
+	prev := s.cur
+	s.cur = ls
+	s.mu.Unlock()
+	defer func() {
+		s.mu.Lock()
+		if s.cur == ls {
+			s.cur = nil
+		}
+		s.mu.Unlock()
+		close(ls.gone)
+	}()
+	if prev != nil {
+		select {
+		case prev.stop <- "superseded":
+		default:
+		}
+		select {
+		case <-prev.gone:
+		case <-time.After(5 * time.Second):
+		}
+	}
+	s.mu.Lock()
+	s.ups++
+	close(s.changed)
+	s.changed = make(chan struct{})
+	s.mu.Unlock()
 	s.upOnce.Do(func() { close(s.streamUp) })
 	n := 0
 	for {
@@ -199,6 +299,19 @@ func (s *refServer) stream(w http.ResponseWriter, r *http.Request, first string,
 			n++
 			io.WriteString(w, frame(n, msg))
 			fl.Flush()
+		case how := <-ls.stop:
+			if how == "reset" {
+				// drop the connection under the stream: no terminating chunk, the client's read fails
+				if hj, ok := w.(http.Hijacker); ok {
+					if conn, _, err := hj.Hijack(); err == nil {
+						if tc, ok := conn.(*net.TCPConn); ok {
+							tc.SetLinger(0)
+						}
+						conn.Close()
+					}
+				}
+			}
+			return
 		case <-r.Context().Done():
 			return
 		case <-s.done:
